@@ -293,7 +293,10 @@ def run_case(case: dict[str, Any]) -> dict[str, Any]:
                                  'witness': {'first': it, 'next': nxt}})
                     break
             if it['kind'] == 'timer' and not {'interval', 'idle'} & set(specs[hid].get('opts') or {}):
-                if len(it['calls']) > 1 or lst[k + 1:]:
+                # (a run during which the operator paused -- a synchronous function runs in a thread while the loop goes on, the pause may begin under it -- was
+                # ASKED to stop before it returned: it did not exit on its own, and is started again on resume like any stopped instance)
+                stopped_under_it = any(to and a - 1e-9 <= tt <= (b if b is not None else float('inf')) + 1e-9 for tt, to in toggles for a, b in it['calls'])
+                if (len(it['calls']) > 1 or lst[k + 1:]) and not stopped_under_it:
                     viol.append({'mech': 'one-shot-timer-repeated', 'msg': f"{hid} on {uid}: a timer without interval/idle ran more than once ({len(it['calls'])} calls, {len(lst)} instances)",
                                  'witness': None})
                     break
